@@ -318,3 +318,30 @@ Proof.
   split; [apply (nodupb_sound _ _ bytes_eqb_eq); vm_compute; reflexivity|].
   split; [vm_compute; tauto|]. split; [intros i nm fs H; destruct i; discriminate | apply cache_inv_empty].
 Qed.
+
+(* ================================================================== (G) kind tables from the Go source *)
+(* proto/type.go Type.IsPacked / FromProtoKindToType and proto/descriptor.go TypeDescriptor.IsPacked are translated from the Go text on
+   every build (gen/Gen_protokind.v, gen/Gen_proto.v); the panics of IsPacked / TypeToKind are explicit (result None). *)
+From DG Require Gen_proto Gen_protokind Check20g GenProtokindProofs.
+
+(* the model's [packable] is Type.IsPacked on every protoreflect kind 1..18; IsPacked panics exactly on LIST and MAP *)
+Theorem C15_packable_from_source :
+  (forall k, 1 <= k <= 18 -> Gen_protokind.Type_IsPacked k = Some (packable k)) /\
+  (forall t, 0 <= t < 256 -> (Gen_protokind.Type_IsPacked t = None <-> t = 19 \/ t = 20)).
+Proof. split; [exact GenProtokindProofs.Type_IsPacked_is_packable | exact GenProtokindProofs.Type_IsPacked_panics_iff]. Qed.
+Print Assumptions C15_packable_from_source.
+
+(* TypeDescriptor.IsPacked, on the atoms of the field the model elaborates (typ = mf_ty, elem.typ = mf_elemty, unpacked = the declaration
+   says [packed = false]), does not panic and answers the model's mf_packed - for singular, repeated and map fields *)
+Theorem C15_mf_packed_from_source :
+  forall tab m fd, (fd_label fd = 0 \/ fd_label fd = 1 \/ fd_label fd = 2) -> 1 <= fst (elem_of tab m fd) <= 18 ->
+  Gen_protokind.TypeDescriptor_IsPacked (GenProtokindProofs.td_of (elab_field tab m fd) fd) = Some (mf_packed (elab_field tab m fd)).
+Proof. exact GenProtokindProofs.TypeDescriptor_IsPacked_is_mf_packed. Qed.
+Print Assumptions C15_mf_packed_from_source.
+
+(* the type byte of an elaborated field is FromProtoKindToType(kind, isList, isMap) *)
+Theorem C15_mf_ty_from_source :
+  forall tab m fd, (fd_label fd = 0 \/ fd_label fd = 1 \/ fd_label fd = 2) -> 0 <= fst (elem_of tab m fd) < 256 ->
+  mf_ty (elab_field tab m fd) = Gen_proto.FromProtoKindToType (mf_kind (elab_field tab m fd)) (fd_label fd =? 1) (fd_label fd =? 2).
+Proof. exact GenProtokindProofs.FromProtoKindToType_is_mf_ty. Qed.
+Print Assumptions C15_mf_ty_from_source.
